@@ -207,6 +207,7 @@ func runC08(c *core.Ctx) {
 	runR811(c)
 	runR814(c)
 	runR815(c)
+	runR816(c)
 	runR83(c)
 	runR84(c)
 	runR85(c)
